@@ -602,6 +602,17 @@ theorem purge_never_deletes_live (D : Durable) (s : Index) (i : Nat) (n : Node) 
     getBlob (applyWrites D (purgeWrites s)).blobs i = getBlob D.blobs i ∧ Write.del i ∉ purgeWrites s :=
   ⟨purge_keeps_live_blob D s i n h, purge_skips_live_tombstone s i (by simp [h])⟩
 
+/-- `LoadedInv`, purge side: whatever tombstones the (possibly older) metadata object carried, the purge
+of a freshly loaded index deletes no blob of a loaded id -/
+theorem loaded_purge_safe (D : Durable) (pick : Nat × Nat) (s : Index) (h : load D pick = .ok s) (D' : Durable) :
+    ∀ i ∈ s.ids, Write.del i ∉ purgeWrites s ∧ getBlob (applyWrites D' (purgeWrites s)).blobs i = getBlob D'.blobs i := by
+  intro i hi
+  have hk : i ∈ keys s.nodes := by rw [(load_inv h).dom_eq]; exact hi
+  have hsome := getNode_isSome_iff.mpr hk
+  cases hg : getNode s.nodes i with
+  | none => simp [hg] at hsome
+  | some n => exact ⟨(purge_never_deletes_live D' s i n hg).2, (purge_never_deletes_live D' s i n hg).1⟩
+
 theorem idsSync_mut {s : Index} (hs : IdsSync s) (m : Mut) : IdsSync (applyMut s m) := by
   cases m with
   | ins id node edits pick valid => exact (hnsw_spec_insert s hs id node edits pick valid).2.2.2
